@@ -80,6 +80,10 @@ def gen_cases(rng, tier, scale):
     # decorator effects apply forward only
     fixed = [
         ('{{v}}|{{*setctx o}}{{v}}|{{dump v}}', {'v': 'OUTER', 'o': {'v': 'INNER'}}, 'OUTER|INNER|dump(x76:v:-:x494e4e4552;;bti;-)'),
+        ('{{b}}|{{*setctx o}}{{a}}|{{b}}|{{./b}}|{{this.b}}|{{#if b}}Y{{else}}N{{/if}}|{{#each l}}x{{else}}E{{/each}}',
+         {'b': 'old', 'l': [1], 'o': {'a': 'new'}}, 'old|new||||N|E'),
+        ('{{b}}|{{*setctx 5}}{{b}}|{{this}}', {'b': 'old'}, 'old||5'),
+        ('{{#with w}}{{*setctx @root.o}}{{a}}{{b}}{{/with}}|{{b}}', {'b': 'old', 'w': {'b': 'wb'}, 'o': {'a': 'new'}}, None),
         ('{{lh 1}}', {}, ('err', 'HelperNotFound')),
         ('{{#if t}}{{*sethelper "lh"}}{{/if}}{{lh 1}}', {'t': True}, 'local(lh:-:v:-:u1)'),
         ('{{> il}}', {}, ('err', 'PartialNotFound')),
